@@ -179,4 +179,14 @@ PROPS = {
              'distinct = hash of the rendered case; every case is non-trivial. Buckets rt.* count realtime sections that were executed and found clean.',
         exhaustive=dict(quick=False, thorough=False),
         assumptions=['only the interposed symbols are observed']),
+    'C10': dict(
+        level_text='Runtime monitoring of a round-trip law: generated argument lists (0..12 values and beyond through runs; every printable type: i/h over the full range, chars over printable ASCII and the C escapes, finite floats/doubles in lossless mode, strings/symbols with quotes, backslashes, %, newlines, keyword look-alikes, blobs, MIDI, colours, T/F/N/I, time tags that are "immediately" or have a float-representable fraction, homogeneous arrays of 0..8 elements, constant and arithmetic runs of length 1..9 around the compression threshold) are printed with random options (line length 10..120, precision 0..9, compression on/off) by rtosc_print_arg_vals / rtosc_print_message; then strlen == return value, the syntax checker must accept and count, the scanner must write exactly that many values and consume the whole text, and the scanned values, expanded by the harness, must be bit-identical to the originals (and rtosc_arg_vals_eq must agree). Text is scanned from an exact-size heap copy under AddressSanitizer, TZ=UTC.',
+        level_note='Trusts the harness expansion of ranges (same arithmetic as the library: start + i*delta). Lossy float printing is out of scope (lossless mode only).',
+        technique='round-trip law monitor (print/check/scan) under AddressSanitizer/UBSan',
+        stages=[dict(harness='c10', variant='asan', quick=30000, thorough=2000000,
+                     need=['printed.lists', 'printed.messages', 'scanned', 'roundtrips_ok', 'printed.with_linebreak', 'printed.with_range_syntax'])],
+        rule='case = one argument list + print options (every 4th as a whole message); distinct = hash of the rendered list and options; '
+             'non-trivial = every case.',
+        exhaustive=dict(quick=False, thorough=False),
+        assumptions=['TZ=UTC', 'harness-side range expansion']),
 }
